@@ -166,7 +166,7 @@ def _init_worker(mode, known_dev):
     _W["mode"] = mode
     _W["dev"] = known_dev
     try:
-        resource.setrlimit(resource.RLIMIT_AS, (6 << 30, 6 << 30))
+        resource.setrlimit(resource.RLIMIT_AS, (3 << 30, 3 << 30))
     except (ValueError, OSError):
         pass
     signal.signal(signal.SIGALRM, _alarm)
@@ -371,12 +371,19 @@ def direction_a(ck, mode, invariants, dev, pdf_every, pdf_scales, pdf_text_every
     res2 = [r for k, r in both if k == "p"]
     tot = {"n": 0, "runs": 0, "dev": 0, "tie": 0, "tie_real": 0, "colpage": 0, "scalecmp": 0, "pred_evals": 0}
     mismatches = []
+    perkey = {}
+
+    def report(key, msg, case):
+        # every violating case counts; at most 20 replay files per key are written
+        perkey[key] = perkey.get(key, 0) + 1
+        if perkey[key] <= 20 or ck.is_known(key):
+            ck.violation(key, msg, case)
     for r in res1:
         for k in tot:
             tot[k] += r[k]
         mismatches += r["mismatch"]
         for key, msg, case in r["viol"]:
-            ck.violation(key, msg, case)
+            report(key, msg, case)
         for h in r["nontrivial"]:
             ck.case(0, ("A", h))
         for s in r["samples"]:
@@ -387,7 +394,9 @@ def direction_a(ck, mode, invariants, dev, pdf_every, pdf_scales, pdf_text_every
             pdf[k] += r[k]
         mismatches += r["mismatch"]
         for key, msg, case in r["viol"]:
-            ck.violation(key, msg, case)
+            report(key, msg, case)
+    if perkey:
+        ck.extra["violating_cases_per_key"] = perkey
     ck.evaluations += tot["runs"] + pdf["pages"]
     ck.replayed += tot["n"]
     ck.extra["direct_runs"] = tot["runs"]
@@ -456,7 +465,7 @@ def record_file(args):
                               "%s %s" % (os.path.relpath(path, "/repo"), la_kwargs)))
         return out
     except MemoryError:
-        out["fail08"].append(("no-termination", "layout analysis ran out of memory (6 GiB ceiling)",
+        out["fail08"].append(("no-termination", "layout analysis ran out of memory (3 GiB ceiling)",
                               "%s %s" % (os.path.relpath(path, "/repo"), la_kwargs)))
         return out
     except Exception as e:
